@@ -22,8 +22,24 @@
   Repaired in /repo and therefore plain positive theorems now: the organism name (F27, repo 69bb3bf:
   written unwrapped), the SOURCE text (F28, repo 3d74d27: written as it is), toggle qualifiers (F29,
   repo 2dd2956: the value reads back empty) — `source_roundtrip`, `toggle_roundtrip`.
+
+  Beyond read ∘ write (sections at the end of the file):
+    byte fixed point     write reg' (readBack reg r p) = write reg r, per field group and composed
+                         (`write_read_write_partial`, guard `namesAdjacent`; full statement refuted at a
+                         hand-built `Props` with a repeated, NON-adjacent row name: order only, since
+                         repo 7b61a9a no value is lost — `write_keeps_every_value`), second generation without guard
+                         (`reread_fixed_point`, `read_back_idempotent`)
+    learning             reading under a registry that has learned names, streams in which records
+                         teach the registry names (`read_stream_learning`), learning never changes what
+                         is written (`write_learned_same`, `write_pipeline_same`)
+    closure              `Writable` under reverse / complement / rotate / delete / erase / insert /
+                         embed / concat (`writable_*`), `WritableRecord` under complement
 -/
 import Gts.Lemmas.GbReadWrite
+import Gts.Lemmas.GbFixed
+import Gts.Lemmas.GbLearn
+import Gts.Lemmas.GbSecond
+import Gts.Lemmas.GbEdit
 import Gts.Lemmas.GbLocRT
 import Gts.Lemmas.GbProps
 namespace Gts.C01
@@ -411,5 +427,430 @@ theorem read_stream (reg : Registry) (rs : List (Record × Bytes))
     ∃ t, writeAll reg (rs.map (·.1)) = .ok t ∧
       readAll reg t = some (rs.map (fun x => readBack reg x.1 x.2), reg, true) :=
   GenBank.read_stream reg rs hall
+
+/-! ## the byte fixed point: write → read → write -/
+
+/-- **FEATURES, fixed point.**  The table that was read back (`readFeature`: the written items
+added back one by one with `Props.Add`, a toggle's value empty), written by `INSDCFormatter` under
+any registry `reg'` that writes the same text as `reg` (`sameText`: `reg` plus some of its unknown
+names learned as quoted — `learnTable reg fs` is one), is byte for byte the table text that was
+read.  Needs only that in every `Props` the rows have names and the written qualifiers of one name
+are consecutive (`propsAdjacent`: rows of one name adjacent, rows without a value not counting —
+weaker than pairwise distinct names, `names_distinct_adjacent`); no clause on values: the writer
+looks up the NAMES of the table only, and learning keeps every earlier answer except
+unknown → quoted, which are written alike. -/
+theorem features_fixed_point (reg reg' : Registry) (hs : sameText reg reg') (fs : List QFeature)
+    (hd : tableAdjacent fs = true) :
+    tableText reg' (fs.map (readFeature reg)) = tableText reg fs :=
+  tableText_readFeature reg reg' hs fs (by simpa [tableAdjacent, List.all_eq_true] using hd)
+
+/-- pairwise distinct row names (what `Props.Add` / `Props.Set` build) are the special case of the
+guard -/
+theorem names_distinct_adjacent (fs : List QFeature) (h : tableDistinct fs = true) : tableAdjacent fs = true :=
+  tableAdjacent_of_distinct fs h
+
+/-- non-vacuity of the weaker guard: a repeated name in ADJACENT rows (and a row without a value in
+between) is inside it and not inside `tableDistinct`; the re-read table is not the table, yet
+prints identically -/
+def adjacentWitness : List QFeature :=
+  [⟨bs "gene", .point 0, [[bs "note", bs "a"], [bs "focus"], [bs "note", bs "c"], [bs "gene", bs "b"]]⟩]
+
+example : tableAdjacent adjacentWitness = true ∧ tableDistinct adjacentWitness = false ∧
+    (adjacentWitness.map (readFeature Registry.default)).map (·.props) =
+      [[[bs "note", bs "a", bs "c"], [bs "gene", bs "b"]]] := by
+  refine ⟨by decide +kernel, by decide +kernel, by decide +kernel⟩
+
+/-- non-vacuity: a table with a toggle that was given a value through the API, a row without a
+value, a multi-valued row and an unknown name has distinct row names, is not `tableFaithful` (it
+does not come back as itself), and the registry that read it writes the same text -/
+def fixedWitness : List QFeature :=
+  [⟨bs "source", .ranged 0 10 false false, [[bs "organism", bs "Homo sapiens"], [bs "focus", bs "x"], [bs "note"]]⟩,
+   ⟨bs "CDS", .point 3, [[bs "my_tag", bs "learned", bs "twice"], [bs "codon_start", bs "1"]]⟩]
+
+example : tableAdjacent fixedWitness = true ∧ tableFaithful Registry.default fixedWitness = false ∧
+    fixedWitness.map (readFeature Registry.default) ≠ fixedWitness ∧
+    (learnTable Registry.default fixedWitness).typeOf (bs "my_tag") = .quoted ∧
+    Registry.default.typeOf (bs "my_tag") = .unknown :=
+  ⟨by decide +kernel, by decide +kernel, by
+    intro h
+    have := congrArg (fun t => (t.map fun f => f.props.length)) h
+    revert this; decide +kernel, by decide +kernel, by decide +kernel⟩
+
+/-- the same table with the toggle's value empty: in the domain `tableWritable`, and still not
+`tableFaithful` (the row without a value does not come back) -/
+def fixedWitness' : List QFeature :=
+  [⟨bs "source", .ranged 0 10 false false, [[bs "organism", bs "Homo sapiens"], [bs "focus", bs ""], [bs "note"]]⟩,
+   ⟨bs "CDS", .point 3, [[bs "my_tag", bs "learned", bs "twice"], [bs "codon_start", bs "1"]]⟩]
+
+example : sameText Registry.default (learnTable Registry.default fixedWitness) :=
+  sameText_learnTable _ _ _ (sameText_refl _)
+
+/-- **header fields, fixed point.**  The fields that come back — the accession carrying the REGION
+suffix, the region gone (known finding K1A) — print the same header: K1A is a byte fixed point. -/
+theorem header_fixed_point (f : Fields) (L : Int) :
+    headerText { f with accession := accessionLine f, region := none } L = headerText f L :=
+  headerText_readBack f L
+
+example : accessionLine { Fields.empty with accession := bs "AB000001", region := some (2, 9) } = bs "AB000001 REGION: 3..9" := by
+  decide +kernel
+
+/-- **residues, fixed point.**  The reader keeps the ORIGIN block as written; that block has the
+length of the residues (`Origin.Len`, which goes into the LOCUS line) and `Origin.String` prints it
+as `NewOrigin(p).String()` printed the residues. -/
+theorem origin_fixed_point (p : Bytes) (hlen : p.length < 10 ^ 9) :
+    OriginV.len (if p.isEmpty then .buffer [] else .buffer (Origin.originStream p)) = OriginV.len (.residues p) ∧
+    (¬ p.isEmpty → OriginV.text (.buffer (Origin.originStream p)) = OriginV.text (.residues p)) :=
+  origin_readBack p hlen
+
+example : (bs "acgtacgtacgtacgtacgtacgtacgtacgtacgtacgtacgtacgtacgtacgtacgtacgtacgtacgt").length < 10 ^ 9 := by decide
+
+/-- **Learning never changes what is written**: a registry that has learned names (unknown →
+quoted) since — by reading this record, earlier records of the stream, or anything else — writes
+every record byte for byte as before.  (`QualifierIO.String` consults the process-global registry
+at write time; the reader is the only code that registers names.) -/
+theorem write_learned_same (reg reg' : Registry) (hs : sameText reg reg') (r : Record) :
+    write reg' r = write reg r :=
+  write_same reg reg' hs r
+
+/-- **The writer keeps every value** (what repo 7b61a9a, F31, buys).  The qualifier lines of a
+feature are one line group per (name, value) of every row, ROW BY ROW in the order of the rows,
+each value under its own row's name: `propsItems` — the items `INSDCFormatter.String` and
+`Props.Items` walk — is the concatenation of the rows' own items; every value of every row is among
+them; and the text of the feature is the key line followed by exactly their qualifier texts.
+(Before the repair a repeated row name wrote the FIRST row's values once per row of that name and
+never the later row's.) -/
+theorem write_keeps_every_value (reg : Registry) (depth : Nat) (f : QFeature) (hok : propsOk f.props = true) :
+    propsItems f.props = f.props.flatMap rowItems ∧
+    (∀ row ∈ f.props, ∀ v ∈ row.tail, (row.headD [], v) ∈ propsItems f.props) ∧
+    featureText reg depth f = .ok (sp 5 ++ f.key ++ sp (depth - 5 - f.key.length) ++ f.loc.printB ++
+      ((f.props.flatMap rowItems).flatMap fun kv => 10 :: qualifierFmt reg (sp depth) kv.1 kv.2)) := by
+  refine ⟨propsItems_eq _, ?_, ?_⟩
+  · intro row hrow v hv
+    rw [propsItems_eq]
+    refine List.mem_flatMap.mpr ⟨row, hrow, ?_⟩
+    cases row with
+    | nil => simp at hv
+    | cons k vs => simpa [rowItems] using hv
+  · simp only [featureText, hok, Bool.not_true, Bool.false_eq_true, if_false, propsItems_eq]
+
+/-- non-vacuity on the witness of F31: the three values `a`, `b`, `c` are written, in row order
+(the defect wrote `a`, `b`, `a`) -/
+example : propsOk [[bs "note", bs "a"], [bs "gene", bs "b"], [bs "note", bs "c"]] = true ∧
+    propsItems [[bs "note", bs "a"], [bs "gene", bs "b"], [bs "note", bs "c"]] =
+      [(bs "note", bs "a"), (bs "gene", bs "b"), (bs "note", bs "c")] := by
+  decide +kernel
+
+/-- FULL STATEMENT of the fixed point (false): "for every `Writable` record, writing the re-read
+record reproduces the first output".  `Writable` admits a hand-built `Props` in which a row name
+occurs twice in NON-adjacent rows (not constructible with `Props.Add` / `Props.Set`).  Since repo
+7b61a9a (F31) the writer walks the rows one by one and every value is written
+(`write_keeps_every_value`; before, `Keys()` + `Get(key)` wrote the first row's values once per row
+of that name and lost the later row's: `/note="a" /gene="b" /note="a"`).  What is left is ORDER
+only: the first output is `/note="a" /gene="b" /note="c"`, `Props.Add` on reading gathers the two
+`note` rows into one, and the second output is `/note="a" /note="c" /gene="b"` — no value lost, the
+lines in another order.  Replayed on the real code: `gb.write` / `gb.wrw` of this witness give the
+two texts. -/
+def dupNamesWitness : Record :=
+  ⟨{ Fields.empty with locusName := bs "X", molecule := bs "DNA", date := ⟨1, 1, 1⟩ },
+   [⟨bs "gene", .point 0, [[bs "note", bs "a"], [bs "gene", bs "b"], [bs "note", bs "c"]]⟩], .residues []⟩
+
+theorem write_read_write_full_refuted :
+    Writable Registry.default dupNamesWitness [] = true ∧
+    (dupNamesWitness.table.all fun f => Loc.canonP f.loc) = true ∧
+    write (learnTable Registry.default dupNamesWitness.table) (readBack Registry.default dupNamesWitness []) ≠
+      write Registry.default dupNamesWitness ∧
+    tableAdjacent dupNamesWitness.table = false := by
+  refine ⟨by decide +kernel, by decide +kernel, ?_, by decide +kernel⟩
+  intro h
+  have := congrArg (fun o => match o with | .ok t => t.length | .error _ => 0) h
+  revert h
+  decide +kernel
+
+/-- **write → read → write, proved part** (guard `namesAdjacent`: in every feature the written
+qualifiers of one name are consecutive — rows of one name adjacent; pairwise distinct names, what
+`Props.Add` / `Props.Set` build, are the special case `names_distinct_adjacent`; rows without a value
+are allowed.  The guard was `namesDistinct` before repo 7b61a9a).  For a `Writable` record: `GenBank.String` succeeds with a text `t`; `GenBankParser` reads
+from `t` (followed by anything) the record `readBack reg r p` and ends with the registry
+`reg' = learnTable reg r.table`; and `GenBank.String` of THAT record under THAT registry is `t`
+again, byte for byte.  Neither K1A (the REGION suffix moves into the accession: same bytes) nor K1E
+(excluded by `Writable` through `quotedOk`, as in `read_write`) needs a further guard. -/
+theorem write_read_write_partial (reg : Registry) (r : Record) (p : Bytes) (ho : r.origin = .residues p)
+    (hw : Writable reg r p = true) (hloc : ∀ x ∈ r.table, LocRT x.loc)
+    (namesAdjacent : tableAdjacent r.table = true) (rest' : Bytes) :
+    ∃ t, write reg r = .ok t ∧
+      genbankParser reg ⟨t ++ rest', []⟩ = (.ok (readBack reg r p, learnTable reg r.table), ⟨rest', []⟩) ∧
+      write (learnTable reg r.table) (readBack reg r p) = .ok t := by
+  obtain ⟨t, h1, _, h2⟩ := GenBank.read_write reg r p ho hw hloc rest'
+  refine ⟨t, h1, h2, ?_⟩
+  have hlen : p.length < 10 ^ 9 := (writable_parts reg r p hw).2.2.2.2.2.2.2
+  rw [write_readBack reg _ (sameText_learnTable reg reg r.table (sameText_refl reg)) r p ho hlen namesAdjacent, h1]
+
+/-- the fixed point alone, under ANY registry that writes the same text (the reader's registry
+after further records, for instance): `write reg' (readBack reg r p) = write reg r`. -/
+theorem write_readBack_partial (reg reg' : Registry) (hs : sameText reg reg') (r : Record) (p : Bytes)
+    (ho : r.origin = .residues p) (hlen : p.length < 10 ^ 9) (namesAdjacent : tableAdjacent r.table = true) :
+    write reg' (readBack reg r p) = write reg r :=
+  write_readBack reg reg' hs r p ho hlen namesAdjacent
+
+/-- non-vacuity: a record with a region (K1A), a table that does not come back as itself
+(`fixedWitness`) and residues is in the domain of `write_read_write_partial` -/
+def wrwWitness : Record :=
+  ⟨{ locusWitness with accession := bs "AB000001", definition := bs "two\n lines", region := some (2, 9) }, fixedWitness',
+   .residues (List.replicate 12 97)⟩
+
+example : Writable Registry.default wrwWitness (List.replicate 12 97) = true ∧
+    (wrwWitness.table.all fun f => Loc.canonP f.loc) = true ∧ tableAdjacent wrwWitness.table = true ∧
+    wrwWitness.fields.region ≠ none ∧ tableFaithful Registry.default wrwWitness.table = false := by
+  refine ⟨by decide +kernel, by decide +kernel, by decide +kernel, by decide, by decide +kernel⟩
+
+/-- **`readBack` is idempotent on its image**, for every record and without any guard: what the
+reader builds is what `Props.Add` builds (rows `name :: value :: …`, names pairwise distinct), its
+toggle values are already empty and its accession already carries the REGION suffix. -/
+theorem read_back_idempotent (reg reg' : Registry) (hs : sameText reg reg') (r : Record) (p : Bytes) :
+    readBack reg' (readBack reg r p) p = readBack reg r p :=
+  readBack_idem' reg reg' hs r p
+
+/-- … and the table of a record that was read always has distinct row names: from the second
+generation on the guard `namesAdjacent` of `write_read_write_partial` holds by itself
+(`names_distinct_adjacent`). -/
+theorem read_back_names_distinct (reg : Registry) (r : Record) (p : Bytes) :
+    tableDistinct (readBack reg r p).table = true :=
+  tableDistinct_readFeature reg r.table
+
+example : readBack Registry.default dupNamesWitness [] ≠ ⟨dupNamesWitness.fields, dupNamesWitness.table, .buffer []⟩ := by
+  intro h
+  have := congrArg (fun r => r.table.map fun f => f.props.length) h
+  revert this; decide +kernel
+
+/-- **Second generation: the record that was READ is a fixed point of write → read**, for every
+`Writable` record — no guard: neither on row names (the duplicate-name shape of
+`write_read_write_full_refuted` is gone after one reading) nor on K1A (the region is already inside
+the accession).  `GenBank.String` of `readBack reg r p` under the registry `reg'` the reader ended
+with succeeds with some text `t1`; `GenBankParser` under `reg'` reads from `t1` (followed by
+anything) the record `readBack reg r p` itself and leaves the registry `reg'`.  With
+`namesAdjacent`, `t1` is the first output (`write_read_write_partial`). -/
+theorem reread_fixed_point (reg : Registry) (r : Record) (p : Bytes) (hw : Writable reg r p = true)
+    (hloc : ∀ x ∈ r.table, LocRT x.loc) (rest' : Bytes) :
+    ∃ t1, write (learnTable reg r.table) (readBack reg r p) = .ok t1 ∧
+      genbankParser (learnTable reg r.table) ⟨t1 ++ rest', []⟩ =
+        (.ok (readBack reg r p, learnTable reg r.table), ⟨rest', []⟩) :=
+  reread_fixed reg r p hw hloc rest'
+
+/-- non-vacuity: the duplicate-name witness meets the hypotheses (and not the guard `namesAdjacent`) -/
+example : Writable Registry.default dupNamesWitness [] = true ∧
+    (dupNamesWitness.table.all fun f => Loc.canonP f.loc) = true ∧ tableAdjacent dupNamesWitness.table = false :=
+  ⟨write_read_write_full_refuted.1, write_read_write_full_refuted.2.1, write_read_write_full_refuted.2.2.2⟩
+
+/-- **read (write r) under a registry that has learned names.**  The text `GenBank.String` wrote
+under `reg`, read by `GenBankParser` under any `reg'` that writes the same text as `reg`: the same
+record `readBack reg r p` as under `reg` itself, exactly the record's text consumed, and the
+registry `learnTable reg' r.table`.  (`read_write` is the case `reg' = reg`.) -/
+theorem read_write_learned (reg reg' : Registry) (hs : sameText reg reg') (r : Record) (p : Bytes)
+    (ho : r.origin = .residues p) (hw : Writable reg r p = true) (hloc : ∀ x ∈ r.table, LocRT x.loc)
+    (rest' : Bytes) :
+    (∃ t, write reg r = .ok t ∧ t ≠ [] ∧
+      genbankParser reg' ⟨t ++ rest', []⟩ = (.ok (readBack reg r p, learnTable reg' r.table), ⟨rest', []⟩)) ∧
+    reg'.le (learnTable reg' r.table) :=
+  ⟨read_write_gen reg reg' hs r p ho hw hloc rest', learnTable_le reg' r.table⟩
+
+/-- **Reading the same text a second time** (same process, registry as the first reading left it):
+the same record, and the registry does not change any more — the pair (record, registry) reached
+after one reading is stable.  No guard beyond `Writable`. -/
+theorem read_write_second_reading (reg : Registry) (r : Record) (p : Bytes) (ho : r.origin = .residues p)
+    (hw : Writable reg r p = true) (hloc : ∀ x ∈ r.table, LocRT x.loc) (rest' : Bytes) :
+    ∃ t, write reg r = .ok t ∧
+      genbankParser reg ⟨t ++ rest', []⟩ = (.ok (readBack reg r p, learnTable reg r.table), ⟨rest', []⟩) ∧
+      genbankParser (learnTable reg r.table) ⟨t ++ rest', []⟩ =
+        (.ok (readBack reg r p, learnTable reg r.table), ⟨rest', []⟩) := by
+  obtain ⟨t, h1, _, h2⟩ := GenBank.read_write reg r p ho hw hloc rest'
+  obtain ⟨t', h1', _, h3⟩ := read_write_gen reg (learnTable reg r.table)
+    (sameText_learnTable reg reg r.table (sameText_refl reg)) r p ho hw hloc rest'
+  rw [h1] at h1'
+  cases h1'
+  rw [learnTable_idem] at h3
+  exact ⟨t, h1, h2, h3⟩
+
+/-! ## streams in which a record teaches the registry new names -/
+
+/-- **Streams with learning.**  `WriteSeq` for every record under the registry as it is at write
+time (`QualifierIO.String` reads the process-global lists; writing registers nothing, so the whole
+stream is written under one registry `reg`), then `GenBankParser` until the input is used up,
+starting from `reg` and carrying what each record teaches to the next (`learnStream`): exactly the
+records, each as `readBack reg`, no error, and the final registry is the fold of `learnTable` over the
+tables.  No record has to have its names registered: `read_stream` is the special case in which
+nothing is learned. -/
+theorem read_stream_learning (reg : Registry) (rs : List (Record × Bytes))
+    (hall : ∀ x ∈ rs, x.1.origin = .residues x.2 ∧ Writable reg x.1 x.2 = true ∧ (∀ f ∈ x.1.table, LocRT f.loc)) :
+    (∃ t, writeAll reg (rs.map (·.1)) = .ok t ∧
+      readAll reg t = some (rs.map (fun x => readBack reg x.1 x.2), learnStream reg (rs.map (·.1)), true)) ∧
+    reg.le (learnStream reg (rs.map (·.1))) :=
+  ⟨GenBank.read_stream_learning reg reg (sameText_refl reg) rs hall, learnStream_le reg _⟩
+
+/-- … and the same when the reader has ALREADY learned names (it read other files before, or this
+stream once already): any starting registry `reg'` that writes the same text as the writer's. -/
+theorem read_stream_learning_from (reg reg' : Registry) (hs : sameText reg reg') (rs : List (Record × Bytes))
+    (hall : ∀ x ∈ rs, x.1.origin = .residues x.2 ∧ Writable reg x.1 x.2 = true ∧ (∀ f ∈ x.1.table, LocRT f.loc)) :
+    ∃ t, writeAll reg (rs.map (·.1)) = .ok t ∧
+      readAll reg' t = some (rs.map (fun x => readBack reg x.1 x.2), learnStream reg' (rs.map (·.1)), true) :=
+  GenBank.read_stream_learning reg reg' hs rs hall
+
+/-- **Byte fixed point of a stream** (guard `namesAdjacent` for every record): the records that
+were read from a stream, written again with `WriteSeq` under any registry that writes the same text
+as the first writer's — the registry the reader ended with is one — reproduce the stream byte for
+byte. -/
+theorem write_stream_fixed_partial (reg reg' : Registry) (hs : sameText reg reg') (rs : List (Record × Bytes))
+    (hall : ∀ x ∈ rs, x.1.origin = .residues x.2 ∧ x.2.length < 10 ^ 9 ∧ tableAdjacent x.1.table = true) :
+    writeAll reg' (rs.map fun x => readBack reg x.1 x.2) = writeAll reg (rs.map (·.1)) :=
+  writeAll_readBack reg reg' hs rs hall
+
+/-- non-vacuity: a stream of two records; the first teaches `my_tag` (unknown under the initial
+registry, learned as quoted), the second uses it again and is read under the larger registry -/
+def streamWitness : List (Record × Bytes) :=
+  [(⟨locusWitness, fixedWitness', .residues (List.replicate 12 97)⟩, List.replicate 12 97),
+   (⟨{ Fields.empty with locusName := bs "X", molecule := bs "DNA", date := ⟨1, 1, 1⟩ },
+      [⟨bs "gene", .point 0, [[bs "my_tag", bs "again"], [bs "other_tag", bs "new"]]⟩], .residues []⟩, [])]
+
+example : (∀ x ∈ streamWitness, x.1.origin = .residues x.2 ∧ Writable Registry.default x.1 x.2 = true ∧
+      (∀ f ∈ x.1.table, LocRT f.loc)) ∧
+    learnStream Registry.default (streamWitness.map (·.1)) ≠ Registry.default ∧
+    (∀ x ∈ streamWitness, x.2.length < 10 ^ 9 ∧ tableAdjacent x.1.table = true) := by
+  refine ⟨?_, ?_, by decide +kernel⟩
+  · intro x hx
+    have hc : ∀ y ∈ streamWitness, (y.1.table.all fun f => Loc.canonP f.loc) = true := by decide +kernel
+    have hw : ∀ y ∈ streamWitness, y.1.origin = .residues y.2 ∧ Writable Registry.default y.1 y.2 = true := by
+      decide +kernel
+    exact ⟨(hw x hx).1, (hw x hx).2, fun f hf => locRT_of_canon f.loc (List.all_eq_true.mp (hc x hx) f hf)⟩
+  · decide +kernel
+
+/-- **A pipeline that reads and writes in turn** (`gts` commands scan a record, write it, scan the
+next: the process-global registry grows between two writes).  `writeEach` writes record `i` under
+the registry `gᵢ` of its moment; if every `gᵢ` is the starting registry `reg` plus names learned
+since (`sameText reg gᵢ`), the stream is byte for byte the one `WriteSeq` writes under `reg` alone
+— and is therefore read back by `read_stream_learning`. -/
+theorem write_pipeline_same (reg : Registry) (xs : List (Registry × Record)) (h : ∀ x ∈ xs, sameText reg x.1) :
+    writeEach xs = writeAll reg (xs.map (·.2)) :=
+  writeEach_same reg xs h
+
+/-- non-vacuity: the second record of `streamWitness` written under the registry that has learned
+the names of the first -/
+example (r1 r2 : Record) : ∀ x ∈ [(Registry.default, r1), (learnTable Registry.default fixedWitness', r2)],
+    sameText Registry.default x.1 := by
+  intro x hx
+  simp only [List.mem_cons, List.not_mem_nil, or_false] at hx
+  rcases hx with rfl | rfl
+  · exact sameText_refl _
+  · exact sameText_learnTable _ _ _ (sameText_refl _)
+
+example : learnTable Registry.default fixedWitness' ≠ Registry.default := by decide +kernel
+
+/-! ## closure of the writable domain under the edit operations
+
+`ofSeq F s` is the GenBank record `GenBank{F, s.feats, NewOrigin(s.bytes)}` that `WithFeatures` /
+`WithBytes` build around the result `s` of an edit (models of the edits: `Gts/Model/Seq.lean`,
+`SeqNuc.lean`; the header `F` is untouched: `GenBankFields` is neither `Shiftable` nor
+`Expandable`).  These theorems cover the part of the domain that `Writable` states — header, keys,
+qualifiers, residues, LOCUS length.  NOT covered: that the edited LOCATIONS are again canonical
+(`Loc.canonP`, needed for `LocRT`; that is a statement about `Reverse` / `Expand` / `Normalize` and
+the join reduction, C02–C06), and `gts.Slice`, whose `GenBankFields.Slice` rewrites the header
+(REGION, clipped and renumbered references). -/
+
+/-- **Frame.**  `Writable` looks at the table only through key and `Props` of each feature and at
+the residues only through "printable, fewer than 10^9" and the LOCUS length: a record with the same
+header whose features each carry key and `Props` of some old feature, with printable residues and
+a LOCUS length that is the old one, or positive, or zero without CONTIG, is `Writable`. -/
+theorem writable_frame (reg : Registry) (F : Fields) (s s' : Seq)
+    (hw : Writable reg (ofSeq F s) s.bytes = true)
+    (htab : ∀ g ∈ s'.feats, ∃ f ∈ s.feats, g.key = f.key ∧ g.props = f.props)
+    (hbase : ∀ c ∈ s'.bytes, Origin.isBase c = true) (hlen : s'.bytes.length < 10 ^ 9)
+    (hL : s'.bytes.length = s.bytes.length ∨ 0 < s'.bytes.length ∨ F.contigAcc.isEmpty = true) :
+    Writable reg (ofSeq F s') s'.bytes = true :=
+  writable_ofSeq reg F s s' hw (fun g hg => featW_fromTable reg s.feats (writable_feats reg F s hw) g (htab g hg))
+    hbase hlen hL
+
+/-- **`gts.Reverse`** keeps the record writable. -/
+theorem writable_reverse (reg : Registry) (F : Fields) (s : Seq) (hw : Writable reg (ofSeq F s) s.bytes = true) :
+    Writable reg (ofSeq F s.reverse) s.reverse.bytes = true :=
+  GenBank.writable_reverse reg F s hw
+
+/-- **`gts.Complement`** never panics and keeps the record writable (the complement of a printable
+byte is printable). -/
+theorem writable_complement (reg : Registry) (F : Fields) (s : Seq) (hw : Writable reg (ofSeq F s) s.bytes = true) :
+    ∃ s', s.complementRec = some s' ∧ Writable reg (ofSeq F s') s'.bytes = true :=
+  ⟨_, complementRec_eq s, GenBank.writable_complement reg F s hw⟩
+
+/-- **`gts.Complement`, the whole round-trip domain**: `WritableRecord` (`Writable` AND canonical
+locations, the decidable domain of `read_write_canon`) is closed under `gts.Complement` —
+`Location.Complement()` wraps a canonical location or unwraps a wrapped one.  The complemented
+record is therefore written, read back and re-written as `read_write_canon` and
+`write_read_write_partial` say. -/
+theorem writable_record_complement (reg : Registry) (F : Fields) (s : Seq)
+    (hw : WritableRecord reg (ofSeq F s) s.bytes = true) :
+    ∃ s', s.complementRec = some s' ∧ WritableRecord reg (ofSeq F s') s'.bytes = true := by
+  simp only [WritableRecord, Bool.and_eq_true] at hw
+  refine ⟨_, complementRec_eq s, ?_⟩
+  simp only [WritableRecord, Bool.and_eq_true]
+  refine ⟨GenBank.writable_complement reg F s hw.1, ?_⟩
+  have h2 := hw.2
+  simp only [ofSeq, List.all_map, List.all_eq_true] at h2 ⊢
+  intro f hf
+  exact canonP_complement _ (h2 f hf)
+
+/-- **`gts.Rotate`** by any amount keeps the record writable. -/
+theorem writable_rotate (reg : Registry) (F : Fields) (s : Seq) (n : Int)
+    (hw : Writable reg (ofSeq F s) s.bytes = true) :
+    Writable reg (ofSeq F (s.rotate n)) (s.rotate n).bytes = true :=
+  GenBank.writable_rotate reg F s n hw
+
+/-- **`gts.Delete`** / **`gts.Erase`** of `length ≥ 0` residues keep the record writable when residues
+remain or the record has no CONTIG.  (A record emptied of its residues takes its LOCUS length from
+the CONTIG region, which `Writable` does not bound.) -/
+theorem writable_delete (reg : Registry) (F : Fields) (s : Seq) (offset length : Int) (hlen0 : 0 ≤ length)
+    (hw : Writable reg (ofSeq F s) s.bytes = true)
+    (hne : 0 < (s.delete offset length).bytes.length ∨ F.contigAcc.isEmpty = true) :
+    Writable reg (ofSeq F (s.delete offset length)) (s.delete offset length).bytes = true :=
+  GenBank.writable_delete reg F s offset length hlen0 hw hne
+
+theorem writable_erase (reg : Registry) (F : Fields) (s : Seq) (offset length : Int) (hlen0 : 0 ≤ length)
+    (hw : Writable reg (ofSeq F s) s.bytes = true)
+    (hne : 0 < (s.erase offset length).bytes.length ∨ F.contigAcc.isEmpty = true) :
+    Writable reg (ofSeq F (s.erase offset length)) (s.erase offset length).bytes = true :=
+  GenBank.writable_erase reg F s offset length hlen0 hw hne
+
+/-- **`gts.Insert`**, **`gts.Embed`**, **`gts.Concat`** of two writable records (the guest under any
+header `G`) give a writable record with the host's header, as long as the residues together stay
+below 10^9. -/
+theorem writable_insert (reg : Registry) (F G : Fields) (host guest : Seq) (index : Int)
+    (hw : Writable reg (ofSeq F host) host.bytes = true) (hg : Writable reg (ofSeq G guest) guest.bytes = true)
+    (hsum : host.bytes.length + guest.bytes.length < 10 ^ 9) :
+    Writable reg (ofSeq F (host.insert index guest)) (host.insert index guest).bytes = true :=
+  GenBank.writable_insert reg F G host guest index hw hg hsum
+
+theorem writable_embed (reg : Registry) (F G : Fields) (host guest : Seq) (index : Int)
+    (hw : Writable reg (ofSeq F host) host.bytes = true) (hg : Writable reg (ofSeq G guest) guest.bytes = true)
+    (hsum : host.bytes.length + guest.bytes.length < 10 ^ 9) :
+    Writable reg (ofSeq F (host.embed index guest)) (host.embed index guest).bytes = true :=
+  GenBank.writable_embed reg F G host guest index hw hg hsum
+
+theorem writable_concat (reg : Registry) (F G : Fields) (a b : Seq)
+    (hw : Writable reg (ofSeq F a) a.bytes = true) (hg : Writable reg (ofSeq G b) b.bytes = true)
+    (hsum : a.bytes.length + b.bytes.length < 10 ^ 9) :
+    Writable reg (ofSeq F (Seq.concat2 a b)) (Seq.concat2 a b).bytes = true :=
+  GenBank.writable_concat2 reg F G a b hw hg hsum
+
+/-- non-vacuity: a host with a source feature and a CDS with a learned qualifier and a toggle, and a
+guest, are writable under the initial registry; the edits change the record -/
+def editHost : Seq :=
+  ⟨[⟨"source", .ranged 0 12 false false, [["organism", "Homo sapiens"], ["focus", ""]]⟩,
+    ⟨"CDS", .joined [.ranged 1 4 false false, .ranged 6 9 false false], [["my_tag", "v"], ["codon_start", "1"]]⟩],
+   bs "acgtacgtacgt"⟩
+
+def editGuest : Seq := ⟨[⟨"gene", .compl (.ranged 0 3 false false), [["gene", "x"]]⟩], bs "ttt"⟩
+
+example : Writable Registry.default (ofSeq locusWitness editHost) editHost.bytes = true ∧
+    Writable Registry.default (ofSeq sampleRecord.fields editGuest) editGuest.bytes = true ∧
+    editHost.reverse.bytes ≠ editHost.bytes ∧ 0 < (editHost.delete 2 5).bytes.length ∧
+    editHost.bytes.length + editGuest.bytes.length < 10 ^ 9 ∧
+    WritableRecord Registry.default (ofSeq locusWitness editHost) editHost.bytes = true := by
+  refine ⟨by decide +kernel, by decide +kernel, by decide +kernel, by decide +kernel, by decide +kernel, by decide +kernel⟩
 
 end Gts.C01
